@@ -70,6 +70,8 @@ let judges : (string * (sx -> verdict)) list = [
   "C07", judge_C07;
   "C08", judge_C08;
   "C08s", judge_C08s;
+  "C11", judge_C11;
+  "C12", judge_C12;
   "C14", judge_C14;
   "C15", judge_C15;
 ]
